@@ -30,7 +30,10 @@ LEVEL = "exploration"
 MODNAME = "sharepoint2text.parsing.extractors.util.omml_to_latex"
 COMPONENT = "omml_to_latex"
 BATCH = 150
-HISTORY_EVERY = 16         # every 16th generated tree is additionally taken through an edit history on one element object
+HISTORY_EVERY = (16, 64)   # every 16th (quick) / 64th (thorough) generated tree is additionally taken through an edit history on one element object
+# reasons for which clause 5 is silent but "an operand container left out == the same container empty" is still decidable
+ABS_OK_UNCLAIMED = frozenset({"nary:operator-undefined-without-chr", "acc:accent-undefined-without-chr-value", "func:structured-or-split-name",
+                              "container-without-documented-template"})
 
 # ======================================================================================================
 # child side
@@ -374,6 +377,25 @@ def _raw_families(run, O, tok):
             for at in range(O.slot_count(kind, cs)):
                 yield "WT", O.root([inst(kind, co, cs, at=at, inner=wleaf, lf=plain)])
                 yield "WT", O.root([inst(kind, co, cs, at=at, inner=lambda: [O.R(tok()), wleaf()[0], O.R(tok())], lf=plain)])
+    # ---- operand containers left out altogether: every element x every subset of its containers (down to no child
+    #      element at all) x with / without its property element x present operands filled / empty; alone and between runs
+    for kind in ALL:
+        if kind == "m":
+            for pr in (0, 1):
+                yield "ABS", O.root([O.N("m", {"pr": pr}, [], rows=[])])
+                yield "ABS", O.root([O.R(tok()), O.N("m", {"pr": pr}, [], rows=[[]]), O.R(tok())])
+            continue
+        co, cs = O.canon_variant(kind)
+        bare = {"pr": 0, "chr": None, "beg": None, "end": None}
+        for o in (bare, {k_: v_ for k_, v_ in co.items() if k_ not in ("deg", "sub", "sup", "name")}):
+            for mask in range(2 ** len(cs)):
+                for filled in (1, 0):
+                    if not filled and not mask:
+                        continue
+                    slots = [[nm, (plain() if filled else [])] for j, nm in enumerate(cs) if mask >> j & 1]
+                    yield "ABS", O.root([O.N(kind, o, slots)])
+                    slots = [[nm, (plain() if filled else [])] for j, nm in enumerate(cs) if mask >> j & 1]
+                    yield "ABS", O.root([O.R(tok()), O.N(kind, o, slots), O.R(tok())], para=mask % 2)
     # ---- function names that are near misses of the nine known names: one run, split over runs at every position,
     #      carrying a script inside m:fName, in w:t form, alone and as an operand
     def fn(name_nodes, pr=0, ip=0):
@@ -691,6 +713,9 @@ def main(run):
     symbols_used = set()
     integ_pool: list[int] = []
 
+    hist_every = HISTORY_EVERY[0 if run.quick else 1]
+    childless_kinds: set = set()
+
     def register(family, spec, role="case", of=None):
         i = len(specs)
         specs[i] = spec
@@ -710,13 +735,18 @@ def main(run):
                 del specs[i], meta[i]
                 continue
             fam_counts[family] = fam_counts.get(family, 0) + 1
-            batch.append({"i": i, "xml": O.to_xml(spec), "hist": i % HISTORY_EVERY == 0})
+            batch.append({"i": i, "xml": O.to_xml(spec), "hist": i % hist_every == 0})
             if a.risky:
                 feat = next(iter(a.risky))
                 tw = O.twin(spec, feat, tok)
                 j = register(family, tw, role="twin", of=i)
                 meta[i]["twin"] = j
-                batch.append({"i": j, "xml": O.to_xml(tw), "hist": j % HISTORY_EVERY == 0})
+                batch.append({"i": j, "xml": O.to_xml(tw), "hist": j % hist_every == 0})
+            elif family == "ABS" and "operand-absent" in a.features and not a.unclaimed - ABS_OK_UNCLAIMED and "m" not in a.kinds:
+                # metamorphic partner: the same tree with every left-out operand container present but empty
+                j = register(family, O.fill_absent(spec), role="partner", of=i)
+                meta[i]["partner"] = j
+                batch.append({"i": j, "xml": O.to_xml(specs[j]), "hist": False})
             if len(batch) >= BATCH:
                 yield {"mode": "trees", "items": batch}
                 batch = []
@@ -838,7 +868,12 @@ def main(run):
                 run.case(["history", st["kind"], "agree" if st["agree"] else "differ", st.get("raised")])
         risky = next(iter(a.risky)) if a.risky else None
         feature = risky or "clean"
-        if m["role"] == "twin":
+        if "no-child-element" in a.features and ob.get("out") is not None and len(a.kinds) == 1:
+            childless_kinds.update(a.kinds)
+        if m["role"] == "partner":
+            run.count("empty_operand_partners")
+            feature = "clean"
+        elif m["role"] == "twin":
             run.count("control_twins")
             if a.risky:
                 run.inconclusive(f"harness: twin of case {m['of']} still carries {sorted(a.risky)}")
@@ -863,6 +898,21 @@ def main(run):
                 rep["twin_verdict"] = verdicts.get(m.get("twin"))
             run.violation(key, f"[{m['family']}] {detail} | xml {O.to_xml(specs[i])[:700]}", rep)
 
+    # ------------------------------------------------------------------ left-out operand container == empty operand container
+    for i in sorted(obs):
+        j = meta[i].get("partner")
+        if j is None or j not in obs:
+            continue
+        oi, oj = obs[i].get("out"), obs[j].get("out")
+        if not isinstance(oi, str) or not isinstance(oj, str):
+            continue                                     # raised / hung: reported by clause 1 on the tree itself
+        run.count("absent_operand_trees_compared_with_empty_operand_partner")
+        same = O.norm_ws(oi) == O.norm_ws(oj)
+        run.case(["absent-vs-empty-operand", sorted(meta[i]["a"].kinds), "no-child-element" in meta[i]["a"].features, "same" if same else "differ"])
+        if not same:
+            run.violation(f"C19:{COMPONENT}:clean:absent-operand-differs-from-empty-operand",
+                          f"[ABS] {oi[:200]!r} for {O.to_xml(specs[i]).partition('>')[2][:600]} but {oj[:200]!r} with the left-out operand containers present and empty",
+                          {"family": "ABS", "spec": specs[i], "partner": specs[j], "feature": "clean", "symptom": "absent-operand-differs-from-empty-operand"})
     _dbg("verdicts done")
     # ------------------------------------------------------------------ the symbol table itself (finite, complete)
     ascii_pass = "".join(chr(c) for c in range(32, 127))
@@ -905,7 +955,9 @@ def main(run):
     for k in O.STRUCT:
         run.count("template_compared_" + k, compared_kind.get(k, 0))
         run.require("template_compared_" + k, compared_kind.get(k, 0), 100)
-    run.require("history_trees", run.counters.get("history_trees", 0), n_trees // (HISTORY_EVERY + 1))
+    run.require("history_trees", run.counters.get("history_trees", 0), n_trees // (hist_every + hist_every // 4))
+    run.require("absent_operand_trees_compared_with_empty_operand_partner", run.counters.get("absent_operand_trees_compared_with_empty_operand_partner", 0), 250)
+    run.require("element_kinds_converted_without_any_child_element", len(childless_kinds), len(O.STRUCT) + len(O.CONTAINERS))
     for kind in HISTORY_STEPS:
         run.require("history_step:" + kind, run.counters.get("history_step:" + kind, 0), 1000)
     run.require("malformed_radical_trees", run.counters.get("malformed_radical_trees", 0), 300)
@@ -921,7 +973,7 @@ def main(run):
     for f in sorted(O.RISKY):
         run.require("risky:" + f, run.counters.get("risky:" + f, 0), 10)
     run.extras["bounded_exhaustive"] = {
-        "definition": "FN: function names that begin with / end with / contain / are a prefix of / differ in case from a known name, as one run, split at every position, with a script inside m:fName; ODD: every character-/enumeration-valued attribute x every odd value (vlib.gen.omml.ODD_VALUES, attribute absent) alone / between runs / as operand; WT: run text in <m:r><w:t> / <w:r><w:t> at top level and as each operand of each element; E1: every element x every optional child/attribute combination, with and without interleaved property elements; "
+        "definition": "ABS: every element x every subset of its operand containers left out (down to no child element at all) x property element present/absent, each also compared with its partner that has the containers present and empty; FN: function names that begin with / end with / contain / are a prefix of / differ in case from a known name, as one run, split at every position, with a script inside m:fName; ODD: every character-/enumeration-valued attribute x every odd value (vlib.gen.omml.ODD_VALUES, attribute absent) alone / between runs / as operand; WT: run text in <m:r><w:t> / <w:r><w:t> at top level and as each operand of each element; E1: every element x every optional child/attribute combination, with and without interleaved property elements; "
                       "E1-empty: every subset of operands empty; E2: depth 2 (quick: all variants x canonical both ways; thorough: all x one-factor both ways), "
                       "E2-width2: two items per operand; E3: depth 3 of canonical variants; MR/MR2: malformed radical x every continuation",
         "trees_per_family": dict(sorted(fam_counts.items())),
@@ -1020,7 +1072,8 @@ def replay(run, doc):
         ob = _read_doc(case["fmt"], core.unb64(case["b64"]))
         print(core.jdump(ob)[:3000])
         return
-    for label in ("spec", "twin"):
+    outs = {}
+    for label in ("spec", "twin", "partner"):
         spec = case.get(label)
         if not spec:
             continue
@@ -1033,6 +1086,9 @@ def replay(run, doc):
         print("expected:", repr(a.expected) if not a.unclaimed and not a.malformed else "(not claimed)")
         print("verdict :", v or "held")
         run.case([label, _outcome(v)])
+        outs[label] = ob.get("out")
+        if label == "partner" and isinstance(outs.get("spec"), str) and isinstance(outs["partner"], str) and O.norm_ws(outs["spec"]) != O.norm_ws(outs["partner"]):
+            run.violation(f"C19:{COMPONENT}:clean:absent-operand-differs-from-empty-operand", f"{outs['spec']!r} vs {outs['partner']!r} with the left-out operand containers present and empty", case)
         if label == "spec":
             feature = next(iter(a.risky)) if a.risky else "clean"
             for sym, detail in v:
